@@ -315,6 +315,34 @@ def overlap_presentations(ctx, picks, workdir, hashseeds):
                             f"same store, PYTHONHASHSEED={hs0} vs {hs}: annotations differ at {d[:4]} / imports differ: {sorted(i ^ i0, key=str)[:4]}\n--- first\n{t0[:700]}\n--- other\n{text[:700]}", raise_=False)
 
 
+def big_run(ctx, n_side):
+    """the same n_side^2 distinct traces logged through the store logger in ONE long run (one flush at the end) and in runs of
+    1000: what reaches the store must not depend on how many traces a run logged before it was flushed"""
+    from typing import Tuple
+    import fx_target as t
+    left = [Tuple[(int,) * a] for a in range(1, n_side + 1)]
+    right = [Tuple[(str,) * b] for b in range(1, n_side + 1)]
+    traces = [CallTrace(t.pair, {"p_pair1": a, "p_pair2": b}, type(None), None) for a in left for b in right]
+    spec = ["BIGRUN", n_side]
+    ctx.case(spec, True, ["presentation:one-long-run-vs-short-runs"])
+    got = []
+    for chunk in (len(traces), 1000):
+        store = SQLiteStore.make_store(":memory:")
+        lg = CallTraceStoreLogger(store)
+        for i, tr in enumerate(traces):
+            lg.log(tr)
+            if (i + 1) % chunk == 0:
+                lg.flush()
+        lg.flush()
+        rows = store.filter("fx_target", limit=10 ** 7)
+        got.append({(r.qualname, r.arg_types) for r in rows})
+        store.conn.close()
+    if got[0] != got[1] or len(got[0]) != len(traces):
+        ctx.fail("C14/stub-depends-on-order-or-duplication", spec,
+                 f"{len(traces)} distinct traces logged: one long run stores {len(got[0])} of them, runs of 1000 store {len(got[1])}; "
+                 f"{len(got[0] ^ got[1])} rows differ", raise_=False)
+
+
 def shard(ctx):
     q = ctx.tier == "quick"
     workdir = tempfile.mkdtemp(prefix="c14-")
@@ -355,6 +383,8 @@ def shard(ctx):
         rnd = random.Random(ctx.shard_seed(10))
         for tspecs, k, rw in sets:
             cli_presentations(ctx, tspecs, k, rw, rnd, workdir, [0, 1, 2, 3] if q else [0, 1, 2, 3, 4, 5, 6, 7, 8, 9, 10, 11])
+        if ctx.shard == 3 % ctx.nshards:
+            big_run(ctx, 110 if q else 150)
         for _ in range(1 if q else 4):
             overlap_presentations(ctx, [rnd.randrange(0, 9) for _ in range(6)], workdir, [0, 1, 2, 3, 4] if q else list(range(12)))
     finally:
@@ -366,6 +396,8 @@ def run(ctx):
 
 
 def replay(ctx, case):
+    if case[0] == "BIGRUN":
+        return big_run(ctx, case[1])
     if case[0] == "OVERLAP":
         d = tempfile.mkdtemp(prefix="c14-")
         try:
